@@ -103,6 +103,10 @@ def cases(tier):
         for lb in range(6):
             if la + lb <= lim:
                 out.append(Block(la=la, lb=lb, Ka=1, Kb=1, Ma=1, Mb=1, nq=1))
+    if tier == "quick":
+        # the top of the property's range (h shells) also in the quick tier
+        out.append(Block(la=5, lb=0, Ka=1, Kb=1, Ma=1, Mb=1, nq=1))
+        out.append(Block(la=0, lb=5, Ka=1, Kb=1, Ma=1, Mb=1, nq=1))
     for la, lb in [(1, 0), (0, 1), (1, 1), (2, 1), (1, 2)]:
         out.append(Block(la=la, lb=lb, Ka=2, Kb=1, Ma=1, Mb=2, nq=2))
     # charge exactly on a Gaussian centre; all three centres coincident (Boys argument identically 0)
@@ -135,7 +139,7 @@ def cases(tier):
 def main(tier="quick", seed=0, only=None):
     cs = cm.parse_only(cases(tier), only)
     bounds = {
-        "angular_momenta": "block level: every ordered (la, lb) with la + lb <= 4 (quick) / <= 5 (thorough) at Level A; "
+        "angular_momenta": "block level: every ordered (la, lb) with la + lb <= 4 plus (5,0), (0,5) (quick) / <= 5 (thorough) at Level A; "
                            "the remaining pairs up to (5,5) at Level B (concrete exponents, everything else symbolic) in thorough",
         "charges": "1-2 point charges, symbolic position and symbolic charge (either sign); one case with the charge on a "
                    "centre and one with all centres coincident",
